@@ -456,14 +456,21 @@ fn observe(res: re::util::pnm::Result<Buf2<Color3>>, who: &str, hdr: &Option<Ref
         Err(e) => PnmOut::Err(format!("{e:?}")),
         Ok(img) => {
             let (w, h) = img.dims();
-            let px: Vec<[u8; 3]> = img.data().iter().map(|c| c.0).collect();
-            // S: pixel count is the product of the dimensions ...
-            let count_ok = px.len() as u64 == w as u64 * h as u64;
+            // pixels as a user reads them: row by row through the view API ...
+            let px: Vec<[u8; 3]> = match catch(|| img.iter().map(|c| c.0).collect::<Vec<_>>()) {
+                Ok(p) => p,
+                Err(c) => {
+                    rr.violate(Violation::new("S", format!("unreadable-image-{}", c.class()), format!("{who}: iterating the returned {w}x{h} image {}", c.detail())));
+                    img.data().iter().map(|c| c.0).collect()
+                }
+            };
+            // S: pixel count is the product of the dimensions — both as iterated and as stored
+            let count_ok = px.len() as u64 == w as u64 * h as u64 && img.data().len() == px.len();
             // ... and the dimensions are the header's
             let dims_ok = hdr.as_ref().map_or(true, |hd| (hd.w, hd.h) == (w, h));
             rr.oracle("S", count_ok && dims_ok);
             if !count_ok {
-                rr.violate(Violation::new("S", "pixel-count", format!("{who}: image says {w}x{h} but holds {} pixels", px.len())));
+                rr.violate(Violation::new("S", "pixel-count", format!("{who}: image says {w}x{h} but yields {} pixels and stores {}", px.len(), img.data().len())));
             } else if !dims_ok {
                 let hd = hdr.as_ref().unwrap();
                 rr.violate(Violation::new("S", "dims-differ-from-header", format!("{who}: header says {}x{}, image is {w}x{h}", hd.w, hd.h)));
